@@ -460,6 +460,26 @@ theorem getByDetails_mem {c : Cache} {name : String} {ty cl : Nat} {x : Rec} (h 
   unfold getByDetails at h
   exact (mem_getAll lower).mp (List.mem_of_getLast? h)
 
+theorem newestLive_mem {c : Cache} {name : String} {ty : Nat} {now : Int} {x : Rec} (h : newestLive lower c name ty now = some x) :
+    x ∈ c ∧ lower x.name = lower name ∧ x.type = ty ∧ x.class_ = Gen.classIn ∧ x.isExpired now = false := by
+  unfold newestLive at h
+  have hm := List.mem_of_find?_eq_some h
+  have hp := List.find?_some h
+  obtain ⟨m1, m2, m3, m4⟩ := (mem_getAll lower).mp (List.mem_reverse.mp hm)
+  exact ⟨m1, m2, m3, m4, (load_takes_iff _).mp hp⟩
+
+/-- if any unexpired record of that name and type is cached, the repaired loader finds one -/
+theorem newestLive_isSome {c : Cache} {name : String} {ty : Nat} {now : Int} {x : Rec} (hx : x ∈ c)
+    (hn : lower x.name = lower name) (ht : x.type = ty) (hc : x.class_ = Gen.classIn) (he : x.isExpired now = false) :
+    ∃ r, newestLive lower c name ty now = some r := by
+  unfold newestLive
+  cases hf : (getAll lower c name ty Gen.classIn).reverse.find? (fun r => Gen.Lookup.load_takes (r.isExpired now)) with
+  | some r => exact ⟨r, rfl⟩
+  | none =>
+    rw [List.find?_eq_none] at hf
+    have := hf x (List.mem_reverse.mpr ((mem_getAll lower).mpr ⟨hx, hn, ht, hc⟩))
+    exact absurd ((load_takes_iff _).mpr he) this
+
 theorem mem_addrsLifo {c : Cache} {k : String} {now : Int} {ty : Nat} {a : Bytes} (h : a ∈ addrsLifo lower c (some k) now ty) :
     ∃ x ∈ c, x.isExpired now = false ∧ (∃ sc, x.rdata = .addr a sc) ∧ lower x.name = lower k ∧ x.type = ty ∧ x.class_ = Gen.classIn := by
   unfold addrsLifo at h
@@ -592,7 +612,7 @@ theorem loadSrv_prov (R : Rec → Int → Prop) (c : Cache) (i : Info) (now : In
   unfold loadSrv
   split
   · rename_i r hr
-    exact processRecord_prov lower R c i r now (hc r (getByDetails_mem lower hr).1) hc hp
+    exact processRecord_prov lower R c i r now (hc r (newestLive_mem lower hr).1) hc hp
   · exact hp
 
 theorem loadTxt_prov (R : Rec → Int → Prop) (c : Cache) (i : Info) (now : Int)
@@ -600,7 +620,7 @@ theorem loadTxt_prov (R : Rec → Int → Prop) (c : Cache) (i : Info) (now : In
   unfold loadTxt
   split
   · rename_i r hr
-    exact processRecord_prov lower R c i r now (hc r (getByDetails_mem lower hr).1) hc hp
+    exact processRecord_prov lower R c i r now (hc r (newestLive_mem lower hr).1) hc hp
   · exact hp
 
 theorem loadAddrs_prov (R : Rec → Int → Prop) (c : Cache) (i : Info) (now : Int)
@@ -792,12 +812,8 @@ of the instance one takes, an unexpired address of its host -/
 def CacheSuffices (c : Cache) (name : String) (now : Int) : Prop :=
   (∃ r host, LiveSrvOf lower c name now r host) ∧ ∀ r host, LiveSrvOf lower c name now r host → HostHasAddr lower c now host
 
-/-- the SRV key object `get_by_details` returns (the newest-inserted one) is unexpired -/
-def NewestSrvLive (c : Cache) (name : String) (now : Int) : Prop :=
-  ∃ r host, getByDetails lower c name 33 1 = some r ∧ LiveSrvOf lower c name now r host
-
-/-- records of the `DNSService` class have type SRV (what the decoder builds) -/
-def SrvTyped (c : Cache) : Prop := ∀ x ∈ c, (∃ p w q s, x.rdata = .srv p w q s) → x.type = 33
+/-- exactly the records of the `DNSService` class have type SRV (what the decoder builds) -/
+def SrvTyped (c : Cache) : Prop := ∀ x ∈ c, (∃ p w q s, x.rdata = .srv p w q s) ↔ x.type = 33
 
 theorem insertFront_ne_nil (a : Bytes) (l : List Bytes) : (insertFront a l).1 ≠ [] :=
   List.ne_nil_of_mem (insertFront_mem_self a l)
@@ -824,17 +840,22 @@ theorem processRecord_nonsrv (c : Cache) (i : Info) (r : Rec) (now : Int) (hns :
     · exact ⟨rfl, id, id⟩
 
 theorem loadInfo_cachefirst (c : Cache) (name : String) (now : Int)
-    (hsuf : CacheSuffices lower c name now) (hnew : NewestSrvLive lower c name now) (hty : SrvTyped c) :
+    (hsuf : CacheSuffices lower c name now) (hty : SrvTyped c) :
     (loadInfo lower c (Info.fresh lower name) now).complete = true := by
-  obtain ⟨r, host, hget, hlive⟩ := hnew
-  have haddr := hsuf.2 r host hlive
+  obtain ⟨⟨r0, host0, l1, l2, l3, l4, l5, -⟩, hall⟩ := hsuf
+  -- the repaired loader finds the newest unexpired SRV of the instance; it is a live SRV, so its host has an address
+  obtain ⟨r, hget⟩ := newestLive_isSome lower (ty := Gen.typeSrv) l1 l4 l2 l3 l5
+  obtain ⟨g1, g2, g3, g4, g5⟩ := newestLive_mem lower hget
+  obtain ⟨p0, w0, port0, host, hrd0⟩ := (hty r g1).mpr g3
+  have hlive : LiveSrvOf lower c name now r host := ⟨g1, g3, g4, g2, g5, p0, w0, port0, hrd0⟩
+  have haddr := hall r host hlive
   obtain ⟨hrc, hrt, hrcl, hrn, hre, p, w, port, hrd⟩ := hlive
   obtain ⟨x, hx, hxt, hxc, hxn, hxe, a, hxa⟩ := haddr
   -- the SRV step
   have h1 : loadSrv lower c (Info.fresh lower name) now =
       ((({ (Info.fresh lower name) with name := r.name, key := lower r.name } : Info).setSrvHost host (lower host) p w port).reloadAddrs lower c now) := by
     unfold loadSrv
-    have : getByDetails lower c (Info.fresh lower name).name Gen.typeSrv Gen.classIn = some r := hget
+    have : newestLive lower c (Info.fresh lower name).name Gen.typeSrv now = some r := hget
     rw [this]
     simp only [processRecord, hre, hrd, Bool.false_eq_true, ↓reduceIte, Info.fresh, hrn, bne_self_eq_false]
     simp
@@ -852,10 +873,10 @@ theorem loadInfo_cachefirst (c : Cache) (name : String) (now : Int)
     unfold loadTxt
     split
     · rename_i r2 hr2
-      obtain ⟨m1, -, m3, -⟩ := getByDetails_mem lower hr2
+      obtain ⟨m1, -, m3, -, -⟩ := newestLive_mem lower hr2
       have hns : ∀ p w q s, r2.rdata ≠ .srv p w q s := by
         intro p w q s hh
-        have := hty r2 m1 ⟨p, w, q, s, hh⟩
+        have := (hty r2 m1).mp ⟨p, w, q, s, hh⟩
         rw [m3] at this
         exact absurd this (by decide)
       obtain ⟨k1, k2, k3⟩ := processRecord_nonsrv lower c i1 r2 now hns
